@@ -200,4 +200,29 @@ CHECKS['C02'] = e1_check('C02', 'Same images as C01, opposite direction: the rec
 CHECKS['C08'] = e1_check('C08', 'Every crash image must open and be readable; for a stratified sample of first-level images the recovery itself is recorded and every prefix of ITS mutation stream is opened again (second level): '
                          'it must open and converge to the contents of the uninterrupted recovery; recover-close-open must not change contents.', 15000, 200000, {'crash_images_opened': 15000, 'second_level_images_opened': 200, 'idempotence_checks': 50})
 
+def tree_check(cid, text, extra_legs, counters):
+    legs = [{'flavour': 'prod', 'shards': 16}] + extra_legs
+    return {
+        'level': 'exploration',
+        'rule': 'operation sequences (insert / upsert / update / remove / lookup / scan) against a real pager file through the verif facade: key orders ascending, descending, random, zigzag, duplicate-heavy; '
+                'key types BigUInt, BigInt, Int, Double, Text and composites; page sizes 4-64 KiB; min_keys 3/4/6; siblings 1/2/3; uniform cells of 8-120 bytes; 60-2500 (quick) / 12000 (thorough) operations. '
+                'After every operation a lookup is compared with a BTreeMap model; every 4th/16th operation the full forward scan is compared and the page graph is walked (equal leaf depth, sibling chain = in-order leaves both ways, '
+                'child counts, cells inside the page and non-overlapping, overflow chains) and every page of the file is attributed to exactly one owner. Non-trivial = every sequence; distinct = hash of (configuration, seed).',
+        'legs': {'quick': legs, 'thorough': legs},
+        'min_evaluations': {'quick': 600, 'thorough': 9000},
+        'min_counters': {'quick': counters, 'thorough': counters},
+        'assumptions': ['the facade wrappers (crate::verif::facade) call the private B+tree / pager entry points unchanged', 'clean stratum = uniform small cells and a cache that holds the tree; other shapes are replayed as witnesses'],
+        'technique': 'model-based runtime monitor (BTreeMap oracle after every operation) plus structural invariant walk and page-ownership audit of the live page graph through an instrumentation facade',
+        'level_text': text,
+        'level_note': 'Variable-size cells, cells >= 300 bytes, overflow payloads and caches smaller than the tree are open findings (witness leg, each in its own process because some kill it).',
+    }
+
+
+CHECKS['C10'] = tree_check('C10', '~650 (quick) / 9600 (thorough) sequences, ~300k / 6M operations, each followed by a model comparison; full scans and structural walks at quiescent points. Sampling over sequences and configurations.',
+                           [{'flavour': 'prod', 'shards': 6, 'engine': 'C10W'}], {'lookups_checked': 100000, 'audits': 10000, 'scans_checked': 10000})
+CHECKS['C11'] = tree_check('C11', 'Same sequences as C10 with the whole-file ownership audit as the deciding oracle (double owner, leak, free-list tail / cycle, page type confusion), plus release-and-reuse scenarios '
+                           '(fill a tree, release it, all its pages must be on the free list, a second tree must allocate from there before the file grows: decided by engine-side allocation probes) and audits of live databases after SQL histories '
+                           '(inserts, deletes, VACUUM, reopen; with and without a UNIQUE index) from the catalog roots.',
+                           [], {'audits': 10000, 'drop_audits': 300, 'reuse_audits': 300, 'sql_audits': 2000})
+
 NOT_APPLICABLE = [{'property_id': c, 'reason': 'check not built yet in this session (work in progress, see DESIGN.md)'} for c in ALL if c not in CHECKS]
